@@ -12,7 +12,7 @@ import vlib
 
 LEVEL = "model_checking"
 
-SETUP = "v=0; a=(1 2 3); f() { :; }; alias q=y; set -- p1 p2 p3\n"
+SETUP = "v=0; a=(1 2 3); declare -A m=([k]=1 [j]=2); f() { :; }; alias q=y; set -- p1 p2 p3\n"
 UNIT_US = 1500
 
 
@@ -170,10 +170,7 @@ def judge(ck, v, r, stats):
     if r.get("races"):
         stats["raced"] += 1
         tops = race_frames(r.get("report", ""))
-        if v.get("trigger") and "assignVal" in r.get("report", ""):
-            key = "Dev_AppendInPlaceRace"
-        else:
-            key = "data race %s: %s" % (" / ".join(tops), sk)
+        key = "data race %s: %s" % (" / ".join(tops), sk)
         ck.violation(key, dict(rec, frames=tops)); return
     got = sorted(l for l in r["out"].split("\n") if l)
     exp = expected_lines(v)
@@ -256,7 +253,7 @@ def run(ck):
     # (share2) is sampled by simulation, quick picks one schedule per one-job shape: not exhaustive as a whole
     ck.cov["exhaustive"] = False
     ck.notes["families_run_completely"] = [] if quick else ["share", "jobs"]
-    ck.cov["rule"] = ("TLC BFS over ShConc: every shape (6 spawn kinds x 16 job operations x 16 main operations x during/after; "
+    ck.cov["rule"] = ("TLC BFS over ShConc: every shape (6 spawn kinds x 18 job operations x 18 main operations x during/after; "
                       "2..3 jobs of kinds &/>( ) x every wait order) and every interleaving of its events, one vector per terminal "
                       "state (quick: one seed-picked schedule per one-job shape, all two-job and 300 sampled three-job vectors; "
                       "thorough: all of them plus simulated two-job sharing shapes); evaluation = one run in the -race build with the "
